@@ -110,7 +110,7 @@ def _ensures(C, res):
 _el = lambda C: C._e.fresh_list(ROW, 'gfile', n=z3.IntVal(0))
 execute = FunctionSpec(
     file=F, qualname='_MultiPassWorkflowCoordinator.execute', params=dict(self=MP_, referenceMaps=LIST(OMAP), queryMaps=LIST(OMAP)), returns=LIST(ROW),
-    requires=_requires, ensures=_ensures,
+    requires=_requires, ensures=_ensures, may_raise={'IndexError'}, keep_own_safety=True,     # (the row-level join is under a partial-correctness contract)
     ghost={'file1': _el, 'file2': _el, 'writes1': lambda C: z3.IntVal(0), 'writes2': lambda C: z3.IntVal(0),
            'gfirst': _el, 'gsecond': _el, 'farg1': _el, 'farg2': _el, 'gf1': _el, 'gf2': _el, 'gjoined': _el, 'gsep': _el, 'rarg': _el,
            'rdiff': lambda C: z3.RealVal(-1), 'nfilter': lambda C: z3.IntVal(0), 'nresolve': lambda C: z3.IntVal(0)},
